@@ -7,6 +7,7 @@ Direct oracle: the property's predicate on the implementation's own trace, from 
 three formats written here independently of the Lean model (ufoLib's reader is used to look at the
 saved UFO, never defcon)."""
 import copy
+import errno
 import hashlib
 import json
 import os
@@ -28,7 +29,13 @@ RULE = ("generated fonts (as C01, plus PostScript hint values, info attributes o
         "opened with defcon with a random subset of glyphs/images/data pre-read, optionally edited (scripted patterns "
         "at known positions: edit then save, delete then re-create a renamed kerning group, chains 3>2>3 / 3>1>3 / "
         "2>3>2 / 1>2>1, a failing save before the real one) and saved to every target format 1/2/3 in place, to a new "
-        "path and over an existing UFO; after each save the UFO is read back raw (ufoLib) and reopened with defcon; "
+        "path and over an existing UFO (package over package, zip over zip, zip over package, package over zip); failing "
+        "saves are of two kinds: a validation error inside ufoLib, and one injected fault at the final replace of a "
+        "conversion in place / a save over an existing UFO (the put-aside raises; the move of the new UFO onto the "
+        "destination raises before anything arrived, after a part arrived - an empty or half-filled directory, an empty or "
+        "truncated zip -, or after everything arrived), every fault x kind combination drawn without replacement; after a "
+        "failed save the destination is compared byte for byte and kind for kind with what was there; "
+        "after each save the UFO is read back raw (ufoLib) and reopened with defcon; "
         "plus pure-function cases (feature splitting, header search, pairing) on generated texts; non-trivial = a save "
         "that changes the format (or goes to another path) followed by a reopen; distinct = distinct cases")
 ASSUMPTIONS = [
@@ -44,7 +51,11 @@ ASSUMPTIONS = [
     "blocks are not FEA; the splitter would start a block in the middle of that line)",
     "which glyphs of a layer are loaded is compared only for the layers a save determines (all of them on a save-as or "
     "below format 3; loading a composite glyph loads its bases, which the model does not follow)",
-    "a save that fails does so by raising from a validation inside ufoLib (no injected I/O faults here: C18)",
+    "a save that fails does so by raising from a validation inside ufoLib, or from ONE injected fault at the final "
+    "replace: shutil.move of the destination aside raises before moving anything; shutil.move of the new UFO onto the "
+    "destination raises before anything arrived, after a part arrived (torn: that move comes from the system's temporary "
+    "directory, i.e. may be a copy) or after everything arrived; the moves inside the destination's directory (put aside, "
+    "put back) are renames and happen or do not; the clean-up calls do not fail; faults at the writing steps: C18",
 ]
 TRUSTED = ["fontTools.ufoLib reader/writer and its info/kerning conversion tables (used by defcon and, independently, by the "
            "oracle's raw read-back)", "the abstraction of glyphs into (GLIF 1 part, rest) done by this module"]
@@ -453,6 +464,11 @@ def gen_edit(rng, mem_spec):
 
 
 POISONS = ["groups-overlap", "kerning-value", "lib-key", "glyph-lib"]
+# one fault at the final replace (see MoveFaults); the model's name of each
+REPLACE_FAULTS = {"aside-raises": "aside-raises", "movein-raises": "movein-raises", "movein-torn-0": "movein-torn",
+                  "movein-torn-half": "movein-torn", "movein-copied": "movein-copied"}
+STRUCTURES = ["package", "zip"]
+KIND_OF = {"package": "dir", "zip": "file"}
 
 
 def gen_font_case(rng, tier, i):
@@ -481,14 +497,32 @@ def gen_font_case(rng, tier, i):
             if sh.do(copy.deepcopy(op)):
                 ops.append(op)
 
+    cur = {"fmt": s, "st": structure}     # format and structure of the UFO the font is bound to
+
     def save(t=None, mode=None):
         t = t or rng.choice([1, 2, 3])
         mode = mode or rng.choice(["inplace", "inplace", "new", "over"])
-        st = structure if mode == "inplace" else rng.choice([structure, structure, "package", "zip"])
-        ops.append(["save", t, mode, st])
+        st = cur["st"] if mode == "inplace" else rng.choice([cur["st"], cur["st"], "package", "zip"])
+        if mode == "over":
+            # the UFO that is overwritten is a package or a zip whatever the new one is
+            ops.append(["save", t, mode, st, rng.choice([st, "package", "zip"])])
+        else:
+            ops.append(["save", t, mode, st])
+        cur["fmt"] = t
+        if mode != "inplace":
+            cur["st"] = st
         return t
 
-    k = (i // 4) % 9
+    def savefaults(n_over):
+        """saves whose final replace fails: n_over over an existing UFO (distinct fault x kind-of-new x kind-of-old
+        combinations), and one conversion in place (the font's own UFO is the destination)"""
+        combos = [(est, st, f) for est in STRUCTURES for st in STRUCTURES for f in sorted(REPLACE_FAULTS)]
+        batch = [["savefault", rng.choice([1, 2, 3]), "over", st, est, f] for est, st, f in rng.sample(combos, n_over)]
+        t = rng.choice([x for x in (1, 2, 3) if x != cur["fmt"]])
+        batch.insert(rng.randint(0, len(batch)), ["savefault", t, "inplace", cur["st"], cur["st"], rng.choice(sorted(REPLACE_FAULTS))])
+        ops.extend(batch)
+
+    k = (i // 4) % 10
     others = [t for t in (1, 2, 3) if t != s]
     if k == 0:                      # plain conversion, nothing read before
         save(rng.choice(others))
@@ -547,6 +581,14 @@ def gen_font_case(rng, tier, i):
             if sh.do(copy.deepcopy(op)):
                 ops.append(op)
         save(t, "inplace")
+    elif k == 8:                    # the final replace fails (put-aside / move-in; before, in the middle of, after the
+        edits(rng.randint(0, 2))    # arrival of the new UFO) - sometimes after a conversion -, then the real save
+        if rng.random() < 0.3:
+            save(rng.choice(others), rng.choice(["inplace", "new"]))
+        savefaults(2 if tier == "quick" else 3)
+        # (as above: the save that follows rewrites everything)
+        t = rng.choice([1, 2, 3])
+        save(t, None if t != cur["fmt"] else rng.choice(["new", "over"]))
     else:                           # op soup
         for _ in range(rng.randint(2, 5 if tier == "quick" else 9)):
             r = rng.random()
@@ -597,7 +639,7 @@ def gen_pure_case(rng, tier):
 
 
 def generate(rng, tier):
-    n_font, n_pure = (432, 250) if tier == "quick" else (6000, 4000)
+    n_font, n_pure = (440, 250) if tier == "quick" else (6000, 4000)
     for i in range(n_font):
         yield gen_font_case(rng, tier, i)
     for _ in range(n_pure):
@@ -620,6 +662,12 @@ def neighbourhood(case, step, rng):
     for pre in ({"glyphs": [], "images": [], "data": []},):
         for t in (1, 2):
             yield dict(case, preread=pre, ops=base + [["save", t, "inplace", case["structure"]], ["dump"]])
+    if any(o[0] == "savefault" for o in case["ops"]):
+        # the same history with the final replace failing in every way, over every kind of destination
+        for est in STRUCTURES:
+            for st in STRUCTURES:
+                for f in sorted(REPLACE_FAULTS):
+                    yield dict(case, ops=base + [["savefault", 1 + (len(base) + len(f)) % 3, "over", st, est, f]])
     yield case
 
 
@@ -855,7 +903,7 @@ def model_lines(case):
     pre = case["preread"]
     lines.append([Atom("preread"), [list(x) for x in pre["glyphs"]], list(pre["images"]), list(pre["data"])])
     sh = pc.Shadow(mem_spec_from_disk(case["spec"], s))
-    inplace_possible = True
+    cur_fmt, cur_st = s, case["structure"]
     for op in case["ops"]:
         k = op[0]
         if k in PART_OPS:
@@ -879,8 +927,19 @@ def model_lines(case):
             lines.append([Atom("observe")])
         elif k == "savefail":
             lines.append([Atom("noop")])
+        elif k == "savefault":
+            t, mode, st, est, fault = op[1:6]
+            if mode == "inplace" and t == cur_fmt:
+                lines.append([Atom("noop")])        # no temporary UFO, no replace (only in shrunk histories): skipped
+                continue
+            if mode == "inplace":
+                st = est = cur_st
+            lines.append([Atom("savefault"), Atom(str(t)), opt(Atom(KIND_OF[est])), Atom(KIND_OF[st]), Atom(REPLACE_FAULTS[fault])])
         elif k == "save":
             t, mode = op[1], op[2]
+            cur_fmt = t
+            if mode != "inplace":
+                cur_st = op[3]
             lines.append([Atom("save"), Atom(str(t)), mode == "inplace"])
             _, maps2 = expected_reopen(sh.s, t, maps)
             lines.append([Atom("reopen"), enc_maps(maps2)])
@@ -936,6 +995,121 @@ def _poison(font, kind, keep):
         g.lib[7] = "x"
         return lambda: g.lib.__delitem__(7)
     raise ValueError(kind)
+
+
+def safe_digest(path):
+    """pc.tree_digest, or a description of why the UFO at path cannot be read (a destination that an earlier failed
+    save damaged must not crash the run: that is a finding, reported where it happened)"""
+    if not os.path.lexists(path):
+        return {"<gone>": True}
+    try:
+        return pc.tree_digest(path)
+    except Exception as e:
+        return {"<unreadable>": type(e).__name__}
+
+
+def raw_snapshot(path):
+    """what lies at a path, byte for byte and kind for kind (no UFO reader involved: a truncated zip or a half-filled
+    directory must be describable): None, ("link", target), ("file", md5) or ("dir", {relative path: md5 | None})"""
+    if os.path.islink(path):
+        return ("link", os.readlink(path))
+    if os.path.isdir(path):
+        found = {}
+        for d, dirs, files in os.walk(path):
+            for n in files:
+                full = os.path.join(d, n)
+                with open(full, "rb") as f:
+                    found[os.path.relpath(full, path)] = hashlib.md5(f.read()).hexdigest()
+            for n in dirs:
+                found[os.path.relpath(os.path.join(d, n), path) + "/"] = None
+        return ("dir", found)
+    if os.path.isfile(path):
+        with open(path, "rb") as f:
+            return ("file", hashlib.md5(f.read()).hexdigest())
+    return None
+
+
+class MoveFaults(object):
+    """One fault at the final replace of a save onto `dest`, injected by standing in for shutil.move while the save runs
+    (no hook in defcon).  The calls are told apart by what they move, not by how defcon names its temporaries:
+      aside    the move that takes what lies at dest away (to wherever),
+      putback  a move onto dest of the very thing `aside` took away,
+      movein   any other move onto dest - the new UFO, coming from a temporary directory elsewhere.
+    Faults (REPLACE_FAULTS): aside-raises (nothing moved); movein-raises (nothing arrived); movein-torn-0 (the
+    directory was created / the file opened, nothing copied), movein-torn-half (the first half of the files, the last
+    of them half written / the first half of the bytes), movein-copied (everything arrived, the source could not be
+    removed).  Only the move-in is ever torn: it is the one move that leaves its directory, i.e. may be a copy; putting
+    aside and putting back are renames inside the destination's directory."""
+
+    def __init__(self, dest, fault):
+        self.dest = os.path.abspath(dest)
+        self.fault = fault
+        self.real = shutil.move
+        self.aside_at = None
+        self.fired = None
+        self.calls = []
+        self.new = None           # snapshot of the complete new UFO, taken when it is about to be moved in
+
+    def __enter__(self):
+        shutil.move = self
+        return self
+
+    def __exit__(self, *exc):
+        shutil.move = self.real
+        return False
+
+    def __call__(self, src, dst, *a, **kw):
+        s, d = os.path.abspath(str(src)), os.path.abspath(str(dst))
+        if s == self.dest:
+            role = "aside"
+        elif d == self.dest and self.aside_at is not None and s == self.aside_at:
+            role = "putback"
+        elif d == self.dest:
+            role = "movein"
+        else:
+            role = "other"
+        self.calls.append(role)
+        if role == "movein" and self.new is None:
+            self.new = raw_snapshot(s)
+        if self.fired is None and role == "aside" and self.fault == "aside-raises":
+            self.fired = role
+            raise OSError(errno.EACCES, "injected fault: the destination cannot be put aside")
+        if self.fired is None and role == "movein" and self.fault.startswith("movein-"):
+            self.fired = role
+            self._arrive(s, d, self.fault[len("movein-"):])
+            raise OSError(errno.ENOSPC, "injected fault: the new UFO cannot be moved in (%s)" % self.fault)
+        res = self.real(src, dst, *a, **kw)
+        if role == "aside":
+            self.aside_at = d
+        return res
+
+    @staticmethod
+    def _arrive(s, d, how):
+        if how == "raises" or os.path.lexists(d):
+            return
+        if how == "copied":
+            if os.path.isdir(s):
+                shutil.copytree(s, d)
+            else:
+                shutil.copy2(s, d)
+            return
+        half = how == "torn-half"
+        if os.path.isdir(s):
+            os.mkdir(d)
+            if half:
+                files = sorted(os.path.relpath(os.path.join(r, n), s) for r, _, ns in os.walk(s) for n in ns)
+                files = files[:(len(files) + 1) // 2]
+                for j, n in enumerate(files):
+                    os.makedirs(os.path.dirname(os.path.join(d, n)), exist_ok=True)
+                    with open(os.path.join(s, n), "rb") as f:
+                        data = f.read()
+                    with open(os.path.join(d, n), "wb") as f:
+                        f.write(data if j < len(files) - 1 else data[:len(data) // 2])
+        else:
+            with open(s, "rb") as f:
+                data = f.read()
+            with open(d, "wb") as f:
+                f.write(data[:len(data) // 2] if half else b"")
 
 
 class Watcher(object):
@@ -998,10 +1172,11 @@ class Run(object):
         for n in pre["data"]:
             self.font.data[n]
 
-    def destination(self, mode, structure, t):
-        """(path argument or None, existed before, digest before)"""
+    def destination(self, mode, structure, t, existing=None):
+        """(path argument or None, existed before, digest before); existing: structure of the UFO that lies at the
+        destination of an overwriting save (default: the structure that is written)"""
         if mode == "inplace":
-            return None, self.font.path, pc.tree_digest(self.font.path)
+            return None, self.font.path, safe_digest(self.font.path)
         p = self.new_path(structure)
         if mode == "over":
             other = fg.gen_font(_random.Random(len(p) + t), 2, 3)
@@ -1010,7 +1185,7 @@ class Run(object):
             if ofmt < 3:
                 for l in other["layers"]:
                     l["glyphs"] = {k: glif1_gspec(v) for k, v in l["glyphs"].items()}
-            fg.write_ufo(other, p, structure, ofmt)
+            fg.write_ufo(other, p, existing or structure, ofmt)
             return p, p, pc.tree_digest(p)
         return p, None, None
 
@@ -1194,18 +1369,70 @@ def run_font(case, tmpd):
             if viol:
                 continue
             if conv and existed is not None:
-                after = pc.tree_digest(existed) if os.path.exists(existed) else {"<gone>": True}
+                after = safe_digest(existed)
                 if after != before:
                     ch = sorted(x for x in set(before) | set(after) if before.get(x) != after.get(x))
                     V("destination-damaged", "%s/%s" % (mode, kind), step=i, op=op, changed=ch[:8], raised=raised)
             if font.path != path0 or font.ufoFormatVersionTuple != fmt0:
                 V("identity-changed-by-failed-save", mode, step=i, op=op)
             continue
+        if k == "savefault":
+            t, mode, structure, existing, fault = op[1:6]
+            fmt0 = s_now(font.ufoFormatVersionTuple)
+            outs.append(Atom("ok"))
+            if mode == "inplace" and t == fmt0:
+                stats["savefault.skipped"] = stats.get("savefault.skipped", 0) + 1
+                continue
+            arg, existed, _ = run.destination(mode, structure, t, existing)
+            before = raw_snapshot(existed)
+            path0, fmtv0 = font.path, font.ufoFormatVersionTuple
+            raised = None
+            with MoveFaults(existed, fault) as mf:
+                try:
+                    if arg is None:
+                        do_save(formatVersion=t)
+                    else:
+                        do_save(arg, formatVersion=t, structure=structure)
+                except Exception as e:
+                    raised = type(e).__name__
+            after = raw_snapshot(existed)
+            what = "old" if after == before else ("new" if mf.new is not None and after == mf.new else "other")
+            outs[-1] = [Atom("raised" if raised else "done"),
+                        Atom("nothing") if after is None else [Atom({"link": "other"}.get(after[0], after[0])), Atom(what)]]
+            new_kind = KIND_OF[structure] if arg is not None else before[0]
+            combo = "%s-over-%s" % (new_kind, before[0])
+            for key in ("savefault." + fault, "savefault." + mode, "savefault." + combo,
+                        "savefault." + ("raised" if raised else "completed")):
+                stats[key] = stats.get(key, 0) + 1
+            if mf.fired is None:
+                outs[-1] = [Atom("harness-error"), "the fault %s found no call to fire at: %r" % (fault, mf.calls)]
+                continue
+            if viol:
+                continue
+            # the property: "never damages a UFO at the destination unless the save completes".  This save did not
+            # complete; a save that nevertheless returns must have left the complete new UFO there.
+            if after != before and not (raised is None and what == "new"):
+                if after is None:
+                    found = "nothing"
+                elif after[0] != before[0]:
+                    found = "a %s where the %s was" % (after[0], before[0])
+                else:
+                    found = "other content: " + (", ".join(sorted(x for x in set(before[1]) | set(after[1])
+                                                                  if before[1].get(x) != after[1].get(x))[:6])
+                                                 if after[0] == "dir" else "another file")
+                V("destination-damaged", "%s/%s/%s" % (mode, fault, combo), step=i, op=op, raised=raised, found=found,
+                  calls=mf.calls)
+            if raised is not None and (font.path != path0 or font.ufoFormatVersionTuple != fmtv0):
+                V("identity-changed-by-failed-save", mode, step=i, op=op)
+            continue
         if k != "save":
             raise ValueError(op)
         t, mode, structure = op[1], op[2], op[3]
         fmt_before = s_now(font.ufoFormatVersionTuple)
-        arg, existed, before = run.destination(mode, structure, t)
+        arg, existed, before = run.destination(mode, structure, t, op[4] if len(op) > 4 else None)
+        if mode == "over":
+            key = "save.%s-over-%s" % (KIND_OF[structure], KIND_OF[op[4] if len(op) > 4 else structure])
+            stats[key] = stats.get(key, 0) + 1
         stats["save.%d>%d.%s" % (fmt_before, t, mode)] = stats.get("save.%d>%d.%s" % (fmt_before, t, mode), 0) + 1
         stats["save.structure." + structure] = stats.get("save.structure." + structure, 0) + 1
         try:
